@@ -246,7 +246,8 @@ func (w *simWorld) faultReply(req *http.Request, rec *recorded, f *fault, _ stri
 	case "transport":
 		return nil, errors.New("connection reset by peer (simulated)")
 	case "timeout":
-		return nil, timeoutErr{}
+		// what net/http reports when the client's timeout or the request context's deadline expires
+		return nil, context.DeadlineExceeded
 	case "toolarge":
 		n := w.maxBody
 		if n <= 0 {
